@@ -414,6 +414,33 @@ partial def loop (h : IO.FS.Stream) (out : IO.FS.Stream) (st : DState) : IO Unit
               out.putStrLn s!"drawn {drawn} left {left}"
           out.putStrLn "END"
       loop h out st
+  | "sampleN" :: rest =>
+      -- sampleN <ncols convs> | <isIntegral bits> | <entropy> | I a b ; O s.. , d.. ; … | <main stream> | h1 | m1 | h2 | m2 …
+      match st.forest with
+      | none => out.putStrLn "ERR no-forest"; out.putStrLn "END"
+      | some F =>
+          let parts := rest.splitOn "|"
+          let convs : List (Conv Float) := (do let n ← nN; rep n pConv : P _).run' { toks := (parts.getD 0 []).toArray }
+          let isInt := (parts.getD 1 []).map (· == "1")
+          let ent := (parts.getD 2 []).map pF
+          let cparts := (parts.getD 3 []).splitOn ";"
+          let initial := ((cparts.getD 0 []).drop 1).map String.toNat!
+          let derived : List DerivedCluster := (cparts.drop 1).map fun ts =>
+            let body := ts.drop 1
+            ⟨pOwner (ts.getD 0 "S"), (body.takeWhile (· ≠ ",")).map String.toNat!, ((body.dropWhile (· ≠ ",")).drop 1).map String.toNat!⟩
+          let mainStream := (parts.getD 4 []).map pDraw
+          let rec pairs : List (List String) → List (List Nat × List (Draw Float))
+            | hs :: ms :: more => (hs.map String.toNat!, ms.map pDraw) :: pairs more
+            | _ => []
+          let streams := pairs (parts.drop 5)
+          match (buildTable realEnv F convs isInt ent 0.7 ⟨initial, derived⟩ streams).run mainStream with
+          | .error e => out.putStrLn ("ERR " ++ e)
+          | .ok ((rows, cols), left) =>
+              out.putStrLn s!"cols {" ".intercalate (cols.map toString)}"
+              for r in rows do out.putStrLn (" ".intercalate (r.map sCell))
+              out.putStrLn s!"left {left.length}"
+          out.putStrLn "END"
+      loop h out st
   | "analyze" :: col =>
       match st.forest with
       | none => out.putStrLn "ERR no-forest"
